@@ -32,6 +32,8 @@ func VH_SEQ_V1FormContract() {
 	tax := s.FileContractTax(fc)
 	vt, o3 := v.AddWithOverflow(tax)
 	vh.Assert(vh.And(fc.WindowStart >= h, fc.WindowEnd > fc.WindowStart), "contract accepted with a window in the past or an empty window")
+	vh.ReachIf(fc.WindowStart == h, "window-starts-now")
+	vh.ReachIf(fc.WindowEnd == fc.WindowStart+1, "minimal-window")
 	vh.Assert(vh.And(ok1, ok2, !o3, v == m, fc.Payout == vt), "contract accepted although payout != valid sum + tax or valid sum != missed sum")
 	// conservation of the transaction: input == output + payout (no fees in this shape)
 	tot, o4 := t.SiacoinOutputs[0].Value.AddWithOverflow(fc.Payout)
@@ -65,6 +67,9 @@ func VH_SEQ_V1Revision() {
 	vh.Assert(rev.FileContract.RevisionNumber > parent.FileContract.RevisionNumber, "revision number not increased")
 	vh.Assert(rev.UnlockConditions.UnlockHash() == parent.FileContract.UnlockHash, "revision accepted with unlock conditions that do not hash to the contract's unlock hash")
 	vh.Assert(rev.UnlockConditions.Timelock <= h, "revision accepted before its timelock")
+	vh.ReachIf(rev.UnlockConditions.Timelock == h, "timelock-at-bound")
+	vh.ReachIf(parent.FileContract.WindowStart == h, "revised-at-window-start")
+	vh.ReachIf(rev.FileContract.RevisionNumber == parent.FileContract.RevisionNumber+1, "revision-number-plus-one")
 	rv, _ := vhSum(rev.FileContract.ValidProofOutputs)
 	pv, _ := vhSum(parent.FileContract.ValidProofOutputs)
 	rm, _ := vhSum(rev.FileContract.MissedProofOutputs)
@@ -315,11 +320,7 @@ func VH_SEQ_V1SigTimelock() {
 	vh.Assert(vh.Implies(err == nil, vh.And(t.Signatures[0].Timelock <= h, t.SiacoinInputs[0].UnlockConditions.Timelock <= h)), "v1 signature or unlock conditions accepted before their timelock")
 	if err == nil {
 		vh.Reach("accepted")
-		if t.Signatures[0].Timelock == h {
-			vh.Reach("accepted-at-sig-bound")
-		}
-		if t.SiacoinInputs[0].UnlockConditions.Timelock == h {
-			vh.Reach("accepted-at-uc-bound")
-		}
+		vh.ReachIf(t.Signatures[0].Timelock == h, "accepted-at-sig-bound")
+		vh.ReachIf(t.SiacoinInputs[0].UnlockConditions.Timelock == h, "accepted-at-uc-bound")
 	}
 }
